@@ -843,6 +843,36 @@ class Program(object):
 
 # ---------------------------------------------------------------- pure expression evaluation (K6)
 
+class PCtypeTab(object):
+    """glibc's character-class table (*__ctype_b_loc()): index -128..255 -> class bits of the "C" locale"""
+    def at(self, i=0):
+        if not (-128 <= i <= 255):
+            raise EvalError("ctype table read out of bounds (index %d)" % i)
+        c = i & 0xff
+        if i < 0 or c > 127:
+            return 0
+        v = 0
+        if 65 <= c <= 90: v |= 256
+        if 97 <= c <= 122: v |= 512
+        if v: v |= 1024
+        if 48 <= c <= 57: v |= 2048
+        if 48 <= c <= 57 or 65 <= c <= 70 or 97 <= c <= 102: v |= 4096
+        if c in (32, 9, 10, 11, 12, 13): v |= 8192
+        if 32 <= c <= 126: v |= 16384
+        if 33 <= c <= 126: v |= 32768
+        if c in (32, 9): v |= 1
+        if c < 32 or c == 127: v |= 2
+        if 33 <= c <= 126 and not (v & (1024 | 2048)): v |= 4
+        if v & (1024 | 2048): v |= 8
+        return v
+
+
+def _cdiv(a, b):
+    """C integer division (truncation toward zero), exact for arbitrarily large operands"""
+    q = abs(a) // abs(b)
+    return q if (a < 0) == (b < 0) else -q
+
+
 class PStr(object):
     """A pointer into a NUL-terminated constant byte string (abstract value of `const char *` in evaluated regions)."""
     __slots__ = ("data", "off")
@@ -965,10 +995,15 @@ def evalx(e, env, P=None):
     if t == "var" and e[1] in env:
         return env[e[1]]
     if t in ("deref", "idx"):
-        b = evalx(e[1], env, P)
-        if isinstance(b, PStr):
+        try:
+            b = evalx(e[1], env, P)
+        except EvalError:
+            b = None       # not an abstract string (e.g. a constant global table: handled below)
+        if isinstance(b, (PStr, PCtypeTab)):
             i = evalx(e[2], env, P) if t == "idx" else 0
             return b.at(i)
+        if b == "ctype_loc" and t == "deref":
+            return PCtypeTab()
     if t == "bin":
         op = e[1]
         if op == "&&":
@@ -986,10 +1021,10 @@ def evalx(e, env, P=None):
         if op == "*": return a * b
         if op == "/":
             if b == 0: raise EvalError("div0")
-            return int(a / b)
+            return _cdiv(a, b)
         if op == "%":
             if b == 0: raise EvalError("div0")
-            return a - int(a / b) * b
+            return a - _cdiv(a, b) * b
         if op == "<": return int(a < b)
         if op == "<=": return int(a <= b)
         if op == ">": return int(a > b)
